@@ -256,7 +256,35 @@ func unblist(s string) [][]byte {
 
 // readAllChunked drains r with the given buffer size, returning everything
 // released and the terminating error.
+// consumePattern: how readAllChunked pulls a decoded stream. 0: a Read loop with the given buffer size.
+// k > 0: as many callers do - fill a k-byte prefix buffer (stopping, like io.ReadFull, as soon as it is full, so an
+// error delivered together with the last byte is left for the next call), then io.Copy for the rest (which uses
+// WriterTo when the stream offers it). The outcome must not depend on the pattern.
+var consumePattern int
+
 func readAllChunked(r io.Reader, bufsize int) ([]byte, error) {
+	if k := consumePattern; k > 0 {
+		buf := make([]byte, k)
+		n := 0
+		var err error
+		for n < k && err == nil {
+			var m int
+			m, err = r.Read(buf[n:])
+			n += m
+		}
+		if n >= k {
+			err = nil
+		}
+		if err != nil {
+			return buf[:n], err
+		}
+		var w bytes.Buffer
+		_, err = io.Copy(&w, r)
+		if err == nil {
+			err = io.EOF
+		}
+		return append(buf[:n], w.Bytes()...), err
+	}
 	var out []byte
 	buf := make([]byte, bufsize)
 	for i := 0; ; i++ {
